@@ -556,8 +556,20 @@ func checkFetchers(c *fw.Ctx) {
 					c.Fail(rule, "the notary-signature verdict is decided per response", c.P.Pos(fw.InstrPos(phi)), "a boolean ("+phi.Comment+") is carried from one notary response to the next: once one response is counter-signed, later responses are accepted without a notary signature")
 				}
 			}
-			// within an iteration: the accept site is reachable from the iteration entry only via VerifyJSON nil
 			c.Ok(rule, "the notary-signature verdict is decided per response", c.P.Pos(call.Pos()), "no boolean phi at the response loop header")
+			// within one iteration the accept site is reached only through the edge on which
+			// VerifyJSON under the notary's name returned nil (directly or in a helper)
+			construct := "a notary response is accepted only past a verified notary signature"
+			g := fw.GuardCallErrNil("VerifyJSON (notary)", fw.NameIs("gmsl.VerifyJSON"))
+			pass, sites := fw.GatePassEdges(fn, g)
+			switch {
+			case sites == 0:
+				c.Undecided(rule, construct, "no test of the notary signature was recognised in FetchKeys")
+			case fw.ReachableWithin(h, call.(ssa.Instruction), pass):
+				c.Fail(rule, construct, c.P.Pos(call.Pos()), "within one iteration of the response loop the keys can be accepted on a path that never passes VerifyJSON == nil under the notary's name: such a response is vouched for by nobody but itself")
+			default:
+				c.Ok(rule, construct, c.P.Pos(call.Pos()), fmt.Sprintf("%d guard site(s)", sites))
+			}
 		}
 		vj := fw.CallsTo(fn, false, fw.NameIs("gmsl.VerifyJSON"))
 		okV := len(vj) == 1
